@@ -21,7 +21,7 @@ SUBS = ["sub", "deep", "x1", "Node"]
 SHORTS = ["A", "B", "C", "Msg", "Zed", "a1"]
 
 
-def definitions(max_defs: int = 8, roots: int = 2, versions: bool = True) -> st.SearchStrategy:
+def definitions(max_defs: int = 8, roots: int = 2, versions: bool = True, shorts: typing.Optional[typing.List[str]] = None, subs: typing.Optional[typing.List[str]] = None) -> st.SearchStrategy:
     def build(args: typing.Any) -> typing.Any:
         root_specs, raw = args
         roots_ = []
@@ -65,8 +65,8 @@ def definitions(max_defs: int = 8, roots: int = 2, versions: bool = True) -> st.
     one = st.fixed_dictionaries(
         {
             "root": st.integers(0, 3),
-            "ns": st.lists(st.sampled_from(SUBS), max_size=2),
-            "short": st.sampled_from(SHORTS),
+            "ns": st.lists(st.sampled_from(subs or SUBS), max_size=2),
+            "short": st.sampled_from(shorts or SHORTS),
             "version": version,
             "port": st.none(),
             "service": st.sampled_from([False, False, False, True]),
